@@ -165,7 +165,10 @@ func (m *vmModel) drop(k int) {
 
 // fits decides reserved+space <= capacity over the mathematical integers.
 func (m *vmModel) fits(space uint64) bool {
-	return verif.And(m.reserved <= m.capacity, space <= m.capacity-m.reserved)
+	// written as "the 64-bit sum does not wrap and is within capacity" so that the
+	// second conjunct is the very comparison the store makes (cheap for the solver)
+	sum := m.reserved + space
+	return verif.And(sum >= m.reserved, sum <= m.capacity)
 }
 
 // makeRoom evicts least-recently-used evictable blobs until space fits.
@@ -264,6 +267,8 @@ type vmH struct {
 	m      *vmModel
 	nkeys  int
 	sizeFn func() uint64 // source of Create sizes (full range or restricted)
+
+	sawOutOfScope bool // ghost
 }
 
 func vmScopeOf(i int) storelib.BlobScope {
@@ -331,6 +336,13 @@ func (h *vmH) step(ops []int, nscopes int) {
 	h.check()
 }
 
+func (h *vmH) noteClass(c int) int {
+	if c == vrOutOfScope {
+		h.sawOutOfScope = true
+	}
+	return c
+}
+
 func (h *vmH) do(op, k int, scope storelib.BlobScope) {
 	key := vmKeys[k]
 	v := h.view(scope)
@@ -364,7 +376,7 @@ func (h *vmH) do(op, k int, scope storelib.BlobScope) {
 		verif.Assert("markcomplete-result", vmClass(err) == m.markComplete(k))
 	case voDelete:
 		err := v.Delete(key)
-		verif.Assert("delete-result", vmClass(err) == m.delete(k, scope))
+		verif.Assert("delete-result", vmClass(err) == h.noteClass(m.delete(k, scope)))
 	case voBan:
 		err := v.BanEviction(key)
 		verif.Assert("ban-result", vmClass(err) == m.ban(k, scope))
